@@ -53,6 +53,7 @@ func vfFSReset() {
 	vfOps, vfCrashAt, vfFailAt = 0, -1, -1
 	vfOpLog = nil
 	vfTruncOpens = 0
+	vfFailTruncOpens = false
 }
 
 // vfStep numbers a file-system operation; crash or inject a fault if it is the chosen one.
@@ -71,9 +72,17 @@ func vfStep(kind string) error {
 // vfTruncOpens counts opens with O_TRUNC (the first thing a compaction does is to create its temporary file that way).
 var vfTruncOpens int
 
+// vfFailTruncOpens: every open with O_TRUNC fails (a compaction can never create its temporary file:
+// full disk, permissions, something in the way at that path) - a persistent fault, unlike vfFailAt.
+var vfFailTruncOpens bool
+
 func vfOpenFile(name string, flag int, perm os.FileMode) (*os.File, error) {
 	if flag&os.O_TRUNC != 0 {
 		vfTruncOpens++
+		if vfFailTruncOpens {
+			vfOps++
+			return nil, errors.New("open: injected persistent fault")
+		}
 	}
 	if err := vfStep("open"); err != nil {
 		return nil, err
@@ -229,6 +238,7 @@ func vfStat(name string) (os.FileInfo, error) {
 func vfRestartProcess() {
 	vfHandles = map[*os.File]*vfHandle{}
 	vfCrashAt, vfFailAt = -1, -1
+	vfFailTruncOpens = false
 }
 
 // vfRunUntilCrash runs f; returns true if the injected crash stopped it.
